@@ -368,3 +368,39 @@ pub fn sample_skeletons() -> Vec<Skeleton> {
     }
     v
 }
+
+/// C18 family: the tiny-full object in tables-first layout with the body of section `last` laid
+/// out at the very end of the file, (a) without program headers, (b) with a PT_DYNAMIC segment
+/// that covers only the first entry of .dynamic. Every further cut of the tail removes bytes of
+/// exactly one construct while everything else is intact.
+pub fn rotated_skeletons(enc: Enc) -> Vec<Skeleton> {
+    let mut v = Vec::new();
+    for last in 1..idx::SHSTRTAB + 1 {
+        for fam in 0..2 {
+            let (mut spec, _) = tiny_spec(enc, TableOrder::TablesFirst);
+            let mut order: Vec<usize> = (1..=idx::SHSTRTAB).filter(|i| *i != last).collect();
+            order.push(last);
+            spec.body_order = order;
+            spec.segs.clear();
+            if fam == 1 {
+                let b0 = build(&spec);
+                let (off, _) = b0.sec_range(idx::DYNAMIC);
+                let dynsz = layout(Kind::Dyn, enc.class).size as u64;
+                spec.segs = vec![Seg { p_type: PT_DYNAMIC, flags: 6, vaddr: 0, paddr: 0, align: 8, memsz_extra: 0, target: SegTarget::Range { offset: off + (layout(Kind::Phdr, enc.class).size as u64), filesz: dynsz } }];
+                // adding one phdr shifts every body by the phdr size (tables-first): rebuild and re-read
+                let b1 = build(&spec);
+                let (off1, _) = b1.sec_range(idx::DYNAMIC);
+                spec.segs[0].target = SegTarget::Range { offset: off1, filesz: dynsz };
+            }
+            let b = build(&spec);
+            v.push(Skeleton {
+                name: format!("tiny-rotated/{}/last-body={}/{}", enc.name(), String::from_utf8_lossy(&b.names[last]), if fam == 0 { "no-phdrs" } else { "short-PT_DYNAMIC" }),
+                enc,
+                bytes: b.bytes,
+                sites: b.sites,
+                generated: true,
+            });
+        }
+    }
+    v
+}
